@@ -76,8 +76,13 @@ LeafPaths(x, prefix) == IF ~IsDict(x) THEN {prefix} ELSE UNION {LeafPaths(Child(
 (***************************************************************************)
 (* State set operations: a state is a function path -> value               *)
 (***************************************************************************)
-SPaths == {<<"a">>, <<"b", "x">>, <<"b", "y">>}
-States == UNION {[P -> {1, 2}] : P \in SUBSET SPaths}
+\* (<<"b">> is a leaf where other states have the sub-mapping b: a state itself never holds a path and one of its prefixes, and
+\*  only states whose union is prefix-free can be merged)
+SPaths == {<<"a">>, <<"b">>, <<"b", "x">>, <<"b", "y">>}
+ProperPrefix(p, q) == Len(p) < Len(q) /\ SubSeq(q, 1, Len(p)) = p
+PrefixFree(P) == \A p, q \in P : ~ProperPrefix(p, q)
+States == UNION {[P -> {1, 2}] : P \in {Q \in SUBSET SPaths : PrefixFree(Q)}}
+Compatible(a, b) == PrefixFree(DOMAIN a \cup DOMAIN b)
 OrS(a, b) == [p \in DOMAIN a \cup DOMAIN b |-> IF p \in DOMAIN b THEN b[p] ELSE a[p]]      \* later wins
 SubS(a, b) == [p \in DOMAIN a \ DOMAIN b |-> a[p]]
 
@@ -100,7 +105,7 @@ SplitLaws == Mode = "split" =>
 (***************************************************************************)
 TreeCases == {[x |-> x, keep |-> k, ld |-> ld] : x \in {y \in Trees(Depth) : IsDict(y)}, k \in BOOLEAN, ld \in 0..2}
 StateCases == {[a |-> a, b |-> b] : a \in States, b \in States}
-State3Cases == {[a |-> a, b |-> b, c |-> c] : a \in States, b \in States, c \in States}
+State3Cases == {t \in [a : States, b : States, c : States] : PrefixFree(DOMAIN t.a \cup DOMAIN t.b \cup DOMAIN t.c)}
 Init == case \in (CASE Mode = "tree" -> TreeCases [] Mode = "state" -> StateCases [] Mode = "split" -> SplitCases [] OTHER -> State3Cases)
 Next == UNCHANGED case
 
@@ -116,7 +121,7 @@ VisitsOnce == (Mode = "tree" /\ case.ld = 0) =>
 SetLaws == Mode = "state" =>
   /\ DOMAIN SubS(case.a, case.b) = DOMAIN case.a \ DOMAIN case.b
   /\ \A p \in DOMAIN OrS(case.a, case.b) : OrS(case.a, case.b)[p] = IF p \in DOMAIN case.b THEN case.b[p] ELSE case.a[p]
-  /\ OrS(SubS(case.a, case.b), case.b) = OrS(case.a, case.b)
+  /\ Compatible(case.a, case.b) => OrS(SubS(case.a, case.b), case.b) = OrS(case.a, case.b)
 
 \* merging any number of states: later states win, path by path (never subtree by subtree)
 Merge3OK == Mode = "state3" =>
@@ -141,6 +146,7 @@ Export ==
                                   c |-> {<<p, case.c[p]>> : p \in DOMAIN case.c},
                                   or3 |-> {<<p, OrS(OrS(case.a, case.b), case.c)[p]>> : p \in DOMAIN OrS(OrS(case.a, case.b), case.c)}])>>)
   ELSE PrintT(<<"EXPORT", ToJson([a |-> {<<p, case.a[p]>> : p \in DOMAIN case.a}, b |-> {<<p, case.b[p]>> : p \in DOMAIN case.b},
+                                  compat |-> Compatible(case.a, case.b),
                                   or |-> {<<p, OrS(case.a, case.b)[p]>> : p \in DOMAIN OrS(case.a, case.b)},
                                   sub |-> {<<p, SubS(case.a, case.b)[p]>> : p \in DOMAIN SubS(case.a, case.b)}])>>)
 =============================================================================
